@@ -184,17 +184,18 @@ impl Ctx {
         if self.cfg.kind.adaptor() && primary != "C13" && !matches!(class, "data-race" | "overlap") {
             also.push("C13");
         }
-        if faulty && matches!(class, "duplicate" | "ledger" | "handed-twice") && primary != "C18" {
+        if faulty && matches!(class, "duplicate" | "destroyed-twice" | "never-destroyed" | "handed-twice") && primary != "C18" {
             also.push("C18");
         }
         if faulty && matches!(class, "hang" | "no-return") {
             // a call that never returns is also a progress violation
             also.push("C09");
         }
-        if self.has_skip && matches!(class, "duplicate" | "thread-order" | "realtime-order" | "index-fidelity" | "address" | "handed-twice") && primary != "C06" {
+        // (a skip that destroys what a caller received: "elements delivered before it stay valid")
+        if self.has_skip && matches!(class, "duplicate" | "thread-order" | "realtime-order" | "index-fidelity" | "address" | "handed-twice" | "destroyed-twice" | "garbage") && primary != "C06" {
             also.push("C06");
         }
-        if self.has_foreach && matches!(class, "lost" | "duplicate" | "hang" | "no-return" | "foreach-index") && primary != "C12" && !faulty {
+        if self.has_foreach && matches!(class, "lost" | "duplicate" | "hang" | "no-return" | "foreach-index" | "beyond-source" | "foreign-element" | "garbage") && primary != "C12" && !faulty {
             also.push("C12");
         }
         if matches!(class, "duplicate" | "handed-twice") && self.cfg.kind.consuming() && primary != "C08" {
@@ -884,10 +885,13 @@ where
     let l1 = ledger();
     if complete {
         if cfg.kind.consuming() {
-            let bad: Vec<String> = (0..cfg.len).filter(|&p| l1.dropped[p] != 1).map(|p| format!("pos {p}: destroyed {}x", l1.dropped[p])).collect();
-            if !bad.is_empty() || l1.garbage != 0 {
-                let which = if bad.iter().any(|b| b.ends_with(" 0x")) && bad.iter().all(|b| b.ends_with(" 0x")) { "never destroyed" } else { "destroyed more than once or never" };
-                cx.viol("C08", "ledger", format!("after everything was dropped: elements {which}: {bad:?}; garbage destructor runs: {}", l1.garbage));
+            let twice: Vec<String> = (0..cfg.len).filter(|&p| l1.dropped[p] > 1).map(|p| format!("pos {p}: destroyed {}x", l1.dropped[p])).collect();
+            let never: Vec<usize> = (0..cfg.len).filter(|&p| l1.dropped[p] == 0).collect();
+            if !twice.is_empty() || l1.garbage != 0 {
+                cx.viol("C08", "destroyed-twice", format!("after everything was dropped: elements destroyed more than once: {twice:?}; destructor runs on dead memory: {}", l1.garbage));
+            }
+            if !never.is_empty() {
+                cx.viol("C08", "never-destroyed", format!("after everything was dropped: elements of positions {never:?} were neither moved out to a caller nor destroyed"));
             }
         } else {
             let touched: Vec<usize> = (0..cfg.len).filter(|&p| l1.dropped[p] != 0).collect();
@@ -934,7 +938,12 @@ macro_rules! arr {
 /// Build the closed system for one configuration.
 pub fn make_system(cfg: &SysCfg) -> System {
     let len = cfg.len;
-    let owned = move || -> Vec<Elem> { (0..len).map(Elem::new).collect() };
+    // spare capacity on purpose: the length, not the capacity, bounds the elements
+    let owned = move || -> Vec<Elem> {
+        let mut v = Vec::with_capacity(len + 2);
+        v.extend((0..len).map(Elem::new));
+        v
+    };
     match cfg.kind {
         K::Slice => system(cfg, &|s| s.elems.as_slice().into_con_iter()),
         K::VecRef => system(cfg, &|s| s.elems.con_iter()),
